@@ -61,6 +61,18 @@ struct HdrAB {
 #[derive(Serialize, JsonSchema, Clone)]
 struct HdrNone {}
 
+/// A value whose serialisation fails after part of it has been written.  A response that cannot be built must
+/// be an error (5xx) and must leave nothing behind that shows up in a later response.
+#[derive(Serialize, JsonSchema)]
+struct HalfSerialisable {
+    first: String,
+    #[serde(serialize_with = "always_fails")]
+    second: u32,
+}
+fn always_fails<S: serde::Serializer>(_: &u32, _: S) -> Result<S::Ok, S::Error> {
+    Err(serde::ser::Error::custom("this member does not serialise"))
+}
+
 fn random_string(r: &mut StdRng) -> String {
     let pool = ["", "a", "Z", " ", "é", "日本", "😀", "\n", "\u{0}", "\"", "\\", "\u{7f}", "</script>", "%", "null", "\u{feff}"];
     let n = r.gen_range(0..6);
@@ -129,6 +141,17 @@ fn main() {
                 let declared = jobj(&case["declared"]);
                 let explicit = jobj(&case["explicit"]);
                 let want = &case["out"];
+                // now and then a response that cannot be serialised is attempted first, on this thread
+                let after_failure = r.gen_bool(0.3);
+                if after_failure {
+                    let bad = HttpResponseOk(HalfSerialisable { first: random_string(&mut r), second: 1 });
+                    match catch(std::panic::AssertUnwindSafe(|| bad.to_result())) {
+                        Ok(Err(e)) if e.status_code.as_u16() >= 500 => {}
+                        Ok(Err(e)) => mism.push(json!({"prop": "C12", "what": "unserialisable-value-error-class", "status": e.status_code.as_u16()})),
+                        Ok(Ok(_)) => mism.push(json!({"prop": "C12", "what": "unserialisable-value-sent"})),
+                        Err(msg) => mism.push(json!({"prop": "C12", "what": "panic", "msg": msg})),
+                    }
+                }
                 let payload = random_payload(&mut r, 0);
                 let da = declared.get("x-a").map(|c| decl_value(&mut r, &jstr(c)));
                 let db = declared.get("x-b").map(|c| decl_value(&mut r, &jstr(c)));
@@ -163,7 +186,8 @@ fn main() {
                     "deleted" => run!(HttpResponseDeleted()),
                     _ => run!(HttpResponseUpdatedNoContent()),
                 };
-                let ctx = json!({"kind": kind, "declared": {"x-a": da, "x-b": db}, "explicit": {"x-a": ea, "x-b": eb}});
+                let ctx = json!({"kind": kind, "declared": {"x-a": da, "x-b": db}, "explicit": {"x-a": ea, "x-b": eb},
+                    "after_failed_serialisation": after_failure});
                 match res {
                     Err(msg) => mism.push(json!({"prop": "C12", "what": "panic", "case": ctx, "msg": msg})),
                     Ok(Err(e)) => {
